@@ -94,7 +94,9 @@ func genCmdWord(r *rand.Rand) string {
 	case 4:
 		w += "\\~"
 	case 5:
-		w = "'" + pick(r, []string{"a|b", "(?:x)", "[a-z]+", "foo@", "ls", "git@", "home~", "ls\\s", "v\\d", "a\\@", "x\\~", "@", "~", "sudo ", "su\t"})
+		w = "'" + pick(r, []string{"a|b", "(?:x)", "[a-z]+", "foo@", "ls", "git@", "home~", "ls\\s", "v\\d", "a\\@", "x\\~", "@", "~", "sudo ", "su\t",
+			// the rest of the line begins with the marker character itself (only ONE apostrophe is the marker)
+			"'ls", "''?cat", "'", "'+id", "'@", "' x"})
 	}
 	if chance(r, 0.04) && !strings.Contains(w, "\\") && !strings.HasPrefix(w, "'") {
 		w += pick(r, []string{" ", "\t"}) // a trailing blank is part of the word (one or more white-space characters must follow)
